@@ -75,6 +75,12 @@ pub fn rdata_for(rtype: u16, i: usize) -> Vec<u8> {
             if (i / SERIALS.len()) % 2 == 0 { 60 } else { 120 },
         ),
         T_PRIV => vec![0xC0 + (i % 3) as u8, 7, 7],
+        // key tag, algorithm 13, digest type 2, 32 digest octets
+        T_DS => {
+            let mut v = vec![0x30 + (i % 3) as u8, 0x39, 13, 2];
+            v.extend(std::iter::repeat(0xD0 + (i % 3) as u8).take(32));
+            v
+        }
         // ANY / AXFR / others: opaque octets (never valid in a zone)
         _ => vec![1, 2, 3, 4],
     }
@@ -140,7 +146,7 @@ fn serial_strategy(allow_max: bool) -> impl Strategy<Value = u32> {
 pub fn init_zone(allow_max_serial: bool) -> impl Strategy<Value = InitZone> {
     let extra = (
         prop_oneof![4 => 1usize..N_IN_ZONE, 1 => Just(0usize)],
-        prop_oneof![5 => Just(T_A), 3 => Just(T_TXT), 2 => Just(T_NS), 2 => Just(T_CNAME), 1 => Just(T_PRIV)],
+        prop_oneof![5 => Just(T_A), 3 => Just(T_TXT), 2 => Just(T_NS), 2 => Just(T_CNAME), 1 => Just(T_PRIV), 1 => Just(T_DS)],
         0usize..3,
         prop_oneof![Just(300u32), Just(600u32)],
     );
@@ -171,6 +177,7 @@ fn rrset_type() -> impl Strategy<Value = u16> {
         15 => Just(T_CNAME),
         9 => Just(T_SOA),
         8 => Just(T_PRIV),
+        6 => Just(T_DS),
     ]
 }
 
